@@ -132,6 +132,7 @@ func (r *c14runner) op(name string, fn func() error) (ok bool) {
 					merr = fmt.Errorf("panic %v", p)
 				}
 			}()
+			_ = err.Error() // the message is rendered too (logs, CLI output)
 			b, merr = json.Marshal(err)
 		}()
 		if merr != nil || !json.Valid(b) {
@@ -282,6 +283,8 @@ var c14scalars = []*jmut.Node{
 	jmut.Nl(), jmut.S(""), jmut.S("zz-unknown-v9"), jmut.S("ZZ"), jmut.S("-"), jmut.S("1e400"), jmut.S("123456789012345678901234567890"),
 	jmut.S("0." + strings.Repeat("0", 70)), jmut.S("1." + strings.Repeat("9", 25) + "%"), jmut.N("0." + strings.Repeat("0", 70) + "1"),
 	jmut.N("0"), jmut.N("-1"), jmut.N("1e400"), jmut.Bl(true), jmut.Ar(), jmut.O(), jmut.Ar(jmut.Nl()), jmut.Ar(jmut.O()), jmut.O(jmut.Member{Key: "x", Val: jmut.Nl()}),
+	// text that means something to whatever renders an error message around it
+	jmut.S("{{"), jmut.S("{{.x}} %s %!d(x) \u0001"),
 }
 
 // enumMutants calls fn for every single mutation of positions [from,to) of root.
@@ -584,7 +587,7 @@ func childC14(args []string) int {
 		if root.At(p) == nil || root.At(p).K != jmut.Obj {
 			return 2
 		}
-		vals := []*jmut.Node{jmut.Ar(), jmut.O(), jmut.S(""), jmut.Ar(jmut.Nl()), jmut.N("0")}
+		vals := []*jmut.Node{jmut.Ar(), jmut.O(), jmut.S(""), jmut.Ar(jmut.Nl()), jmut.N("0"), jmut.S("{{")}
 		for _, k := range job.Keys {
 			if root.At(p).Get(k) != nil {
 				continue
